@@ -48,8 +48,8 @@ CLAIMS = {
         'technique': 'static analysis: lock-guard live ranges, protected-function fixpoint over the call graph, acquired-while-holding graph, snapshot-only read check over compiler MIR',
         'text': 'Decides for every call-graph path from any entry that each sync-progress mutator of the store runs inside a live '
                 'write guard of the matched-blocks RwLock; that no operation splits its mutations over two critical sections; that '
-                'no RwLock/DashMap lock is re-acquired while held and the lock-order graph is acyclic; and that the three index queries '
-                'read only through one RocksDB snapshot. With std RwLock semantics this yields mutual exclusion of the listed '
+                'no RwLock/DashMap lock is re-acquired while held and the lock-order graph is acyclic; that the three index queries '
+                'read only through one RocksDB snapshot; and that the progress a mutation is decided on (min filtered number, pending matched records, scripts; for functions that only load the in-memory matched-blocks map: the stored pending record) is read under the same lock (no stale check-then-act). With std RwLock semantics this yields mutual exclusion of the listed '
                 'operations (serialisability), deadlock freedom of the lock graph and point-in-time reads.',
         'note': 'Not decided: races outside the listed mutators (add_fetched_tx vs filter_block is handled under C03); fairness.',
     },
@@ -94,7 +94,7 @@ CLAIMS = {
         'text': 'Decides structural necessary conditions of index == chain: a TxHash record is written with the placeholder tx_index only '
                 'after consulting the existing record (the stored index addresses cell keys on spend/rollback); matched blocks are indexed in '
                 'block-number order and script numbers rise only after the whole batch; every key/value reader slices at the offsets the '
-                'writer produces; only the synchronizer (and set_scripts for genesis) indexes blocks; a block is indexed only for the scripts that have not passed it (F41). The equality of index and chain over '
+                'writer produces; only the synchronizer (and set_scripts for genesis) indexes blocks; a block is indexed only for the scripts that have not passed it (F41); filter_block consults a stored transaction record only as the fallback of the lookup in the block being indexed (F35); no reviewed durable write of a storage function is made conditional on a test the reviewed function never made. The equality of index and chain over '
                 'all histories is a value clause and is NOT decided.',
         'note': 'Not decided: index == chain over generated histories, script sets and RPC interleavings (the main clause).',
     },
